@@ -513,7 +513,10 @@ def run_shard(spec, rec):
                 with time_limit(120):
                     nt = walk(kb, rec, rng, fp, {"builtin": kind, "tag": kind}, T=14)
             except (Exception, CaseTimeout) as e:  # noqa
-                rec.skip(f"walk raised {type(e).__name__}")
+                if benign(e) or isinstance(e, CaseTimeout):
+                    rec.skip(f"walk raised {type(e).__name__} (non-finite model / scipy nnls / time limit)")
+                else:
+                    rec.violation(f"evaluation-sequence-raises:{type(e).__name__}:{kind}", {"builtin": kind}, f"a sequence of objective evaluations on one optimiser of the builtin {kind} scheme raised {type(e).__name__}: {str(e)[:200]}")
                 nt = False
             rec.case(("walk", kind, i), bool(nt), features=[f"walk:{kind}"])
 
